@@ -24,7 +24,7 @@ CLAUSE_PROPS = {
     'ExpiredFailed': ['C20'], 'NeverExpireFresh': ['C20'], 'NoStuckTaskAtRest': ['C20', 'C01'],
     'RerunRestores': ['C12'], 'SkipApplied': ['C12'], 'RerunReexecutes': ['C12'], 'PartialRerunOnlyFailed': ['C12', 'C07'],
     'ParentMirrorsChild': ['C09', 'C12'], 'RootAndNamespace': ['C09'],
-    'Prescribed': ['C01', 'C02', 'C09', 'C10', 'C12'],
+    'Prescribed': ['C01', 'C02', 'C04', 'C09', 'C10', 'C12'],
 }
 
 
